@@ -268,6 +268,16 @@ fn adv_scenario(rng: &mut StdRng, sc: usize, out: Box<dyn std::io::Write>, kv: &
             }
             let nb = sim.chain.blocks.len();
             env.rpc_fetch_header(&mut sim, rng.gen_range(0..nb));
+            // ... and, in the same request, a header every peer has together with one that no peer can prove: a block
+            // at or above the peers' tips (their own next block, or a block of the other branch)
+            let top = env.peers.iter().map(|p| sim.chain.blocks[p.server.tip].num).max().unwrap_or(0);
+            let low = env.peers.iter().map(|p| sim.chain.blocks[p.server.tip].num).min().unwrap_or(0);
+            let beyond: Vec<usize> = (0..nb).filter(|b| sim.chain.blocks[*b].num >= top && sim.chain.blocks[*b].pow && sim.chain.blocks[*b].root).collect();
+            if low >= 2 && !beyond.is_empty() && rng.gen_bool(0.6) {
+                let below = sim.chain.ancestor_at(leaf, rng.gen_range(1..low)).unwrap();
+                env.rpc_fetch_header(&mut sim, below);
+                env.rpc_fetch_header(&mut sim, beyond[rng.gen_range(0..beyond.len())]);
+            }
             env.fetch_tick(&mut sim);
         }
         for token in [2u64, 1, 0] {
